@@ -48,7 +48,7 @@ PLAN = {
     "C11": dict(quick=1500, thorough=60000, timeout=90),
     "C01": dict(quick=480, thorough=30000, timeout=180), "C02": dict(quick=480, thorough=30000, timeout=180),
     "C03": dict(quick=480, thorough=30000, timeout=180, extra=[("C03C", dict(quick=1200, thorough=60000, timeout=120))]), "C04": dict(quick=640, thorough=15000, timeout=180),
-    "C06": dict(quick=1280, thorough=20000, timeout=180), "C07": dict(quick=640, thorough=20000, timeout=180),
+    "C06": dict(quick=2400, thorough=30000, timeout=180), "C07": dict(quick=640, thorough=20000, timeout=180),
     "C08": dict(quick=640, thorough=20000, timeout=180), "C09": dict(quick=640, thorough=15000, timeout=180),
     "C10": dict(quick=640, thorough=20000, timeout=180), "C12": dict(quick=640, thorough=20000, timeout=180),
     "C16": dict(quick=640, thorough=20000, timeout=180), "C39": dict(quick=480, thorough=20000, timeout=180),
